@@ -44,6 +44,7 @@ K_NEWCMD = "text-mismatch:" + sm.T_NEWCMD
 K_CHARLET = "text-mismatch:" + sm.T_CHARLET
 K_SHADOW = "text-mismatch:" + sm.T_SHADOW
 K_DOLLAR = "text-mismatch:first-token-after@dollar"
+K_DECLENV = "scope-leak:" + sm.F_DECL_OWN_ENV
 
 
 # ===========================================================================
@@ -88,11 +89,12 @@ def check_source(case):
     mm = sm.first_mismatch(m.segs, text)
     if mm is not None:
         idx, tag, want, got = mm
-        return fail("text-mismatch:" + tag,
+        return fail(K_DECLENV if sm.F_DECL_OWN_ENV in feats else "text-mismatch:" + tag,
                     {"source": src, "expected": expected, "observed": text, "segment": idx,
                      "segment_expected": want, "observed_there": got}, sorted(feats))
     if obs["depth"] != 1 or obs["depth_attr"] != 1:
-        return fail("stack-unbalanced:" + "+".join("group" if n == "{}" else n for n in obs["names"][:6]),
+        return fail(K_DECLENV if sm.F_DECL_OWN_ENV in feats else
+                    "stack-unbalanced:" + "+".join("group" if n == "{}" else n for n in obs["names"][:6]),
                     {"source": src, "depth": obs["depth"], "depth_attr": obs["depth_attr"],
                      "frames_left": obs["names"]}, sorted(feats))
     if not m.wrap:
@@ -312,11 +314,16 @@ class Gen(object):
         for _ in range(n):
             if self.budget <= 0:
                 break
-            r = self.draw(_upto(9))
+            r = self.draw(_upto(10))
             if r < 4:
                 self.change(out)
             elif r < 6:
                 self.probe_any(out)
+            elif r == 10:
+                # (listed finding: the declaration directly inside the environment of the same name)
+                own = sm.DECL_ENVS.get(self.m.save[-1].kind) if self.m.save else None
+                ds = [d for d in sm.DECLS if not (d == own and not self.allow["declenv"])]
+                self.emit(out, {"k": "decl", "d": self.pick(ds)}) or self.probe_any(out)
             else:
                 self.group(out)
 
@@ -379,7 +386,7 @@ class Gen(object):
 def allow_flags():
     return {"global": K_GLOBAL not in KNOWN, "newcmd": K_NEWCMD not in KNOWN,
             "charlet": K_CHARLET not in KNOWN, "shadow": K_SHADOW not in KNOWN,
-            "dollar": K_DOLLAR not in KNOWN}
+            "dollar": K_DOLLAR not in KNOWN, "declenv": K_DECLENV not in KNOWN}
 
 
 @st.composite
